@@ -110,6 +110,12 @@ func (rec *c20Recorder) reset(panicAt map[string]map[int]bool) {
 	}
 }
 
+func (rec *c20Recorder) setScript(panicAt map[string]map[int]bool) {
+	rec.mu.Lock()
+	rec.panicAt = panicAt
+	rec.mu.Unlock()
+}
+
 func (rec *c20Recorder) freeze() {
 	rec.mu.Lock()
 	rec.frozen = true
@@ -295,6 +301,12 @@ func c20NewRig(home string) (*c20Rig, bool) {
 	select {
 	case <-rig.super.FirstHandleDone():
 	case <-time.After(c20Watchdog):
+		return rig, false
+	}
+	// The sentinel is created alone, in an event of its own, before any object under
+	// observation exists: from now on it only ever changes in events that contain nothing
+	// else, so no behaviour of the observed objects can keep the barrier from reporting.
+	if !rig.apply(make(c20Snapshot, len(c20Names))) {
 		return rig, false
 	}
 	return rig, true
